@@ -345,7 +345,7 @@ func substitute(pattern string, ps []kv) (string, bool) {
 			i = e + 1
 			continue
 		}
-		out += string(c)
+		out += pattern[i : i+1]
 		i++
 	}
 	if pi != len(ps) {
